@@ -153,7 +153,7 @@ def gen_schema(c, opts=None):
         qname, mname = "RootQ", "RootM"
     roots = [qname]
     schema["roots"]["query"] = qname
-    if o["mutation"] and c.maybe(40):
+    if o["mutation"] == "always" or (o["mutation"] and c.maybe(40)):
         roots.append(mname)
         schema["roots"]["mutation"] = mname
     sname = None
